@@ -42,10 +42,15 @@ def native_exec(jobs):
     binp = _REPLAY[0]
     d = os.path.join(WORK, "replay")
     os.makedirs(d, exist_ok=True)
-    jf, of = os.path.join(d, "c05.in.json"), os.path.join(d, "c05.out.json")
+    if not jobs:
+        return []
+    jf, of = os.path.join(d, f"c05.{os.getpid()}.in.json"), os.path.join(d, f"c05.{os.getpid()}.out.json")
     json.dump({"jobs": jobs}, open(jf, "w"))
     run([binp, jf, of])
-    return json.load(open(of))["results"]
+    r = json.load(open(of))["results"]
+    os.remove(jf)
+    os.remove(of)
+    return r
 
 
 def concrete_inputs(rng, k, n):
@@ -253,6 +258,38 @@ def confirm_candidates(meta, cov, V):
             V.add(f"{name}[k={k}]:{label}", "inconclusive", detail=f"solver model did not reproduce natively: {nat}")
 
 
+_W = {}
+
+
+def _worker(args):
+    name, regimes, sd, do_native = args
+    meta, interp = _W["meta"], _W["interp"]
+    rng = random.Random(hash((sd, name)) & 0xffffffff)
+    V = Verdict(PROP)
+    cov = dict(paths=0, queries=0, solver_time_s=0.0, native_validated=0, candidates=[], panic_paths=[])
+    ok_first = False
+    try:
+        for k in regimes:
+            paths = check_op(meta, interp, name, k, V, cov, rng)
+            if paths is not None and k == regimes[0]:
+                ok_first = True
+            if paths is not None and k <= 1 and do_native:
+                try:
+                    validate_native(meta, name, k, paths, rng, cov, V, n=3 if tier() == "quick" else 8)
+                except Exception as e:  # engine trouble is inconclusive, never a verdict on miden-vm
+                    V.add(f"{name}[k={k}]:native-validation", "inconclusive", detail=f"{type(e).__name__}: {e}")
+        confirm_candidates(meta, cov, V)
+    except Exception as e:
+        V.add(f"{name}", "inconclusive", detail=f"{type(e).__name__}: {e}")
+    for o in V.obligations:
+        o["detail"] = None if o["detail"] is None else str(o["detail"])[:300]
+        if o["status"] == "candidate":
+            o["status"] = "replayed"
+    plain = {k: v for k, v in cov.items() if isinstance(v, (int, float))}
+    plain["panic_paths"] = [(a, str(b)[:120]) for a, b in cov["panic_paths"]]
+    return V.obligations, V.violations, V.known_hit, plain, ok_first
+
+
 def main():
     t0 = time.time()
     V = Verdict(PROP)
@@ -266,18 +303,27 @@ def main():
     if only:
         names = [n for n in names if n in only]
     covered = []
-    for name in names:
-        for k in regimes:
-            paths = check_op(meta, interp, name, k, V, cov, rng)
-            if paths is not None and k == regimes[0]:
-                covered.append(name)
-            if paths is not None and k <= 1 and name not in ("AdvPop", "AdvPopW", "Clk", "FmpAdd", "FmpUpdate", "Caller", "SDepth", "U32and", "U32xor",
-                                                             "MLoad", "MLoadW", "MStore", "MStoreW", "MStream", "Pipe", "RCombBase"):
-                try:
-                    validate_native(meta, name, k, paths, rng, cov, V, n=3 if tier() == "quick" else 8)
-                except Exception as e:  # engine trouble is inconclusive, never a verdict on miden-vm
-                    V.add(f"{name}[k={k}]:native-validation", "inconclusive", detail=f"{type(e).__name__}: {e}")
-    confirm_candidates(meta, cov, V)
+    skip_native = ("AdvPop", "AdvPopW", "Clk", "FmpAdd", "FmpUpdate", "Caller", "SDepth", "U32and", "U32xor",
+                   "MLoad", "MLoadW", "MStore", "MStoreW", "MStream", "Pipe", "RCombBase")
+    _W.update(meta=meta, interp=interp)
+    native_exec([])  # build the replay binary once in the parent
+    import multiprocessing as mp_
+    n = int(os.environ.get("VERIF_JOBS", "0")) or max(1, min(12, (os.cpu_count() or 2) - 2))
+    with mp_.get_context("fork").Pool(n) as pool:
+        results = pool.map(_worker, [(nm, regimes, seed(), nm not in skip_native) for nm in names], chunksize=1)
+    for nm, (obs, vio, known_hit, pc, ok_first) in zip(names, results):
+        V.obligations += obs
+        V.violations += vio
+        V.known_hit += known_hit
+        V.inconclusive += [o["name"] for o in obs if o["status"] == "inconclusive"]
+        for k_, v_ in pc.items():
+            if isinstance(v_, list):
+                cov[k_] = cov.get(k_, []) + v_
+            else:
+                cov[k_] = cov.get(k_, 0) + v_
+        if ok_first:
+            covered.append(nm)
+    cov["candidates"] = []
     c = V.counts()
     not_cov = [o for o in V.obligations if o["status"] == "not-covered"]
     for o in V.obligations:
